@@ -1,3 +1,363 @@
-import NxModel.Bytes
-/-! driver stub for C18 (replaced when the property's model lands) -/
-def main : IO Unit := IO.println "stub C18"
+import NxModel.Switch.Clients
+import NxModel.Switch.Errors
+import NxModel.DriverUtil
+/-! line-protocol driver for the Switch client models (C18; reused by C20 for the setters)
+
+  reset                                          -> ok            (forget all tables)
+  tbl <table> <key> <value>                      -> ok            (string values: hex of UTF-8; Nat columns: decimal)
+  latest <client> <n>                            -> ok
+  lang <hex>                                     -> ok            (append to five.LANGUAGES)
+  setver <client> <devid|none> <v1> <v2> …       -> one `<ok|err E> <state>` group per step, `;`-separated
+  call <client> <devid|none> <ver|init> [h=<hex>[,<hex>,<hex>]] [p=<hex>] [r=<n>] -- <call> <args…>
+                                                 -> ok <hosthex>|<requesthex> …  |  err <Name>
+  shape … (same arguments as call)               -> ok <method>;<header names>;<param keys>;<body keys> …  |  err <Name>
+  resp <client> <json|none|count> <status> <json tokens…>
+                                                 -> typed <codehex> <messagehex> | http <status> | ok <hex|None> | raises
+  args:  n:<dec>  s:<hex>  b:<hex>  none  t  f  ln:<n,n,…>  ls:<hex,hex,…>  d:<hex=hex,…>   (`-` = empty)
+  json tokens (prefix form): N T F i<int> s<hex> a<count> … o<count> (s<hex> value)…
+-/
+open Nx Nx.Http Nx.Switch
+
+def strOfBytes (b : Bytes) : Option String := String.fromUTF8? (ByteArray.mk b.toArray)
+def strOfHex (h : String) : Option String := (fromHex h).bind strOfBytes
+def hexOfStr (s : String) : String := hexOut s.toUTF8.toList
+
+inductive Arg where
+  | n (v : Nat) | s (v : String) | b (v : Bytes) | none | t | f
+  | ln (v : List Nat) | ls (v : List String) | d (v : List (String × String))
+
+def splitList (s : String) : List String := if s = "-" then [] else s.splitOn ","
+
+def parseArg (tok : String) : Option Arg :=
+  if tok = "none" then some .none
+  else if tok = "t" then some .t
+  else if tok = "f" then some .f
+  else match tok.splitOn ":" with
+    | ["n", v] => v.toNat?.map .n
+    | ["s", v] => (strOfHex v).map .s
+    | ["b", v] => (fromHex v).map .b
+    | ["ln", v] => ((splitList v).mapM String.toNat?).map .ln
+    | ["ls", v] => ((splitList v).mapM strOfHex).map .ls
+    | ["d", v] => ((splitList v).mapM fun (kv : String) =>
+        match kv.splitOn "=" with
+        | [k, x] => do let k ← strOfHex k; let x ← strOfHex x; pure (k, x)
+        | _ => Option.none).map .d
+    | _ => Option.none
+
+def optStr : Arg → Option (Option String)
+  | .none => some Option.none
+  | .s v => some (some v)
+  | _ => Option.none
+
+def argBool : Arg → Option Bool
+  | .t => some true
+  | .f => some false
+  | _ => Option.none
+
+structure Cfg where
+  hosts : List String := []
+  power : Option String := Option.none
+  region : Option Nat := Option.none
+
+def parseCfg (toks : List String) : Option Cfg :=
+  toks.foldlM (fun c tok =>
+    match tok.splitOn "=" with
+    | ["h", v] => ((splitList v).mapM strOfHex).map fun hs => { c with hosts := hs }
+    | ["p", v] => (strOfHex v).map fun p => { c with power := some p }
+    | ["r", v] => v.toNat?.map fun r => { c with region := some r }
+    | _ => Option.none) {}
+
+def errName (e : Err) : String := e.name
+
+/-- apply `init` and, unless `ver = init`, one `set_system_version` -/
+def withVersion {σ : Type} (init : Except Err σ) (setv : σ → Nat → Upd σ) (ver : String) : Except Err σ := do
+  let s ← init
+  if ver = "init" then pure s else
+  match ver.toNat? with
+  | Option.none => .error .other
+  | some v => match setv s v with
+    | (s, Option.none) => pure s
+    | (_, some e) => .error e
+
+def showSent (l : List Sent) : String :=
+  "ok " ++ " ".intercalate (l.map fun (h, r) => hexOfStr h ++ "|" ++ hexOfStr r.encode)
+
+def showShape (l : List Sent) : String :=
+  "ok " ++ " ".intercalate (l.map fun (_, r) =>
+    let s := r.shape
+    s.method ++ ";" ++ ",".intercalate s.headerNames ++ ";" ++ ",".intercalate s.paramKeys ++ ";" ++ ",".intercalate s.bodyKeys)
+
+def dauthCall (name : String) (a : List Arg) : Option DauthCall :=
+  match name, a with
+  | "challenge", [] => some .challenge
+  | "device_token", [.n c, .s ch, .s mac] => some (.deviceToken c ch mac)
+  | "edge_token", [.n c, .s v, .s ch, .s mac] => some (.edgeToken c v ch mac)
+  | _, _ => Option.none
+
+def aauthCall (name : String) (a : List Arg) : Option AauthCall :=
+  match name, a with
+  | "challenge", [.s t] => some (.challenge t)
+  | "auth_nocert", [.n t, .n v, .s tok] => some (.authNocert t v tok)
+  | "auth_system", [.n t, .n v, .s tok] => some (.authSystem t v tok)
+  | "auth_digital", [.n t, .n v, .s tok, .b c, .s ec, .s ek] => some (.authDigital t v tok (.bytes c) ec ek)
+  | "auth_digital", [.n t, .n v, .s tok, .s c, .s ec, .s ek] => some (.authDigital t v tok (.str c) ec ek)
+  | "auth_gamecard", [.n t, .n v, .s tok, .b c, .b g, ch, src] => do
+    let ch ← optStr ch; let src ← optStr src
+    pure (.authGamecard t v tok c g ch src)
+  | _, _ => Option.none
+
+def baasCall (name : String) (a : List Arg) : Option BaasCall :=
+  match name, a with
+  | "authenticate", [.s t, p] => do let p ← optStr p; pure (.authenticate t p)
+  | "login", [.n id, .s pw, .s acc, app, country, skip] => do
+    let app ← optStr app; let country ← optStr country; let skip ← argBool skip
+    pure (.login id pw acc app country skip)
+  | "register", [.s acc] => some (.register acc)
+  | "update_presence", [.n u, .n d, .s acc, .s st, .n t, .n g, .d f, .n acd] => some (.updatePresence u d acc st t g f acd)
+  | "get_friends", [.n u, .s acc, .n c] => some (.getFriends u acc c)
+  | _, _ => Option.none
+
+def dragonsCall (name : String) (a : List Arg) : Option DragonsCall :=
+  match name, a with
+  | "publish_elicense_archive", [.s t, .s ch, .b c, .n acc] => some (.publishElicenseArchive t ch c acc)
+  | "report_elicense_archive", [.s t, .s id, .n acc] => some (.reportElicenseArchive t id acc)
+  | "publish_device_linked_elicenses", [.s t] => some (.publishDeviceLinkedElicenses t)
+  | "exercise_elicense", [.s t, .ls ids, .ln accs, .n cur] => some (.exerciseElicense t ids accs cur)
+  | "contents_authorization_token_for_aauth", [.s t, .s e, .n na, .n title] => some (.contentsAuthorizationTokenForAauth t e na title)
+  | _, _ => Option.none
+
+def fiveCall (name : String) (a : List Arg) : Option FiveCall :=
+  match name, a with
+  | "get_unread_invitation_count", [.s t, .n u] => some (.getUnreadInvitationCount t u)
+  | "get_inbox", [.s t, .n u] => some (.getInbox t u)
+  | "get_invitation_group", [.s t, .n g] => some (.getInvitationGroup t g)
+  | "mark_as_read", [.s t, .ln ids] => some (.markAsRead t ids)
+  | "mark_all_as_read", [.s t, .n u] => some (.markAllAsRead t u)
+  | "send_invitation", [.s t, .ln r, .n app, .n grp, .b data, .d msgs, m, .n acd] => do
+    let m ← argBool m
+    pure (.sendInvitation t r app grp data msgs m acd)
+  | _, _ => Option.none
+
+def atumnCall (name : String) (a : List Arg) : Option AtumnCall :=
+  match name, a with
+  | "download_content_metadata", [.n t, .n v, sys, .s cid] => do let sys ← argBool sys; pure (.downloadContentMetadata t v sys cid)
+  | "download_content", [.s cid] => some (.downloadContent cid)
+  | _, _ => Option.none
+
+def runCall (T : Tables) (client devid ver : String) (cfg : Cfg) (name : String) (args : List Arg) : Option (Except Err (List Sent)) :=
+  let dev : Option Nat := devid.toNat?
+  let host1 := cfg.hosts.head?
+  match client with
+  | "dauth" => do
+    let c ← dauthCall name args
+    pure do
+      let s ← withVersion (Dauth.init T) (Dauth.setVersion T) ver
+      let s := { s with host := host1.getD s.host, powerState := cfg.power.getD s.powerState, region := cfg.region.getD s.region }
+      s.call c
+  | "aauth" => do
+    let c ← aauthCall name args
+    pure do
+      let s ← withVersion (Aauth.init T) (Aauth.setVersion T) ver
+      let s := { s with host := host1.getD s.host, powerState := cfg.power.getD s.powerState }
+      s.call c
+  | "baas" => do
+    let c ← baasCall name args
+    pure do
+      let s ← withVersion (Baas.init T) (Baas.setVersion T) ver
+      let s := { s with host := host1.getD s.host, powerState := cfg.power.getD s.powerState }
+      s.call c
+  | "dragons" => do
+    let c ← dragonsCall name args
+    pure do
+      let s ← withVersion (Dragons.init T dev) (Dragons.setVersion T) ver
+      let s := match cfg.hosts with
+        | [a, b, c] => { s with hostDragons := a, hostDragonst := b, hostTigers := c }
+        | _ => s
+      s.call c
+  | "five" => do
+    let c ← fiveCall name args
+    pure do
+      let s ← withVersion (Five.init T) (Five.setVersion T) ver
+      let s := { s with host := host1.getD s.host }
+      Five.call T s c
+  | "sun" => do
+    let d ← dev
+    if name ≠ "system_update_meta" ∨ !args.isEmpty then Option.none else
+    pure do
+      let s ← withVersion (Nim.init T T.latestSun sunHost d) (Nim.setVersion T) ver
+      let s := { s with host := host1.getD s.host }
+      s.sunCall .systemUpdateMeta
+  | "atumn" => do
+    let d ← dev
+    let c ← atumnCall name args
+    pure do
+      let s ← withVersion (Nim.init T T.latestAtumn atumnHost d) (Nim.setVersion T) ver
+      let s := { s with host := host1.getD s.host }
+      s.atumnCall c
+  | _ => Option.none
+
+/-! ### set_system_version sequences -/
+
+def showUpd {σ : Type} (shw : σ → String) : Upd σ → String
+  | (s, Option.none) => "ok " ++ shw s
+  | (s, some e) => "err " ++ errName e ++ " " ++ shw s
+
+def runSeq {σ : Type} (init : Except Err σ) (setv : σ → Nat → Upd σ) (shw : σ → String) (vs : List Nat) : String :=
+  match init with
+  | .error e => "initerr " ++ errName e
+  | .ok s =>
+    let (_, outs) := vs.foldl (fun (acc : σ × List String) v =>
+      let r := setv acc.1 v
+      (r.1, acc.2 ++ [showUpd shw r])) (s, ["ok " ++ shw s])
+    ";".intercalate outs
+
+def showDauth (s : Dauth) : String := s!"{s.version} {hexOfStr s.ua} {hexOfStr s.digest} {s.keygen} {s.api}"
+def showAauth (s : Aauth) : String := s!"{s.version} {hexOfStr s.ua} {s.api}"
+def showBaas (s : Baas) : String := s!"{s.version} {hexOfStr s.ua}"
+def showFive (s : Five) : String := s!"{s.version} {hexOfStr s.ua}"
+def showDragons (s : Dragons) : String :=
+  s!"{s.version} {match s.uaNim with | some u => hexOfStr u | Option.none => "None"} {hexOfStr s.uaDauth}"
+def showNim (s : Nim) : String := hexOfStr s.ua
+
+def runSetver (T : Tables) (client devid : String) (vs : List Nat) : Option String :=
+  let dev : Option Nat := devid.toNat?
+  match client with
+  | "dauth" => some (runSeq (Dauth.init T) (Dauth.setVersion T) showDauth vs)
+  | "aauth" => some (runSeq (Aauth.init T) (Aauth.setVersion T) showAauth vs)
+  | "baas" => some (runSeq (Baas.init T) (Baas.setVersion T) showBaas vs)
+  | "five" => some (runSeq (Five.init T) (Five.setVersion T) showFive vs)
+  | "dragons" => some (runSeq (Dragons.init T dev) (Dragons.setVersion T) showDragons vs)
+  | "sun" => dev.map fun d => runSeq (Nim.init T T.latestSun sunHost d) (Nim.setVersion T) showNim vs
+  | "atumn" => dev.map fun d => runSeq (Nim.init T T.latestAtumn atumnHost d) (Nim.setVersion T) showNim vs
+  | _ => Option.none
+
+/-! ### JSON tokens -/
+
+mutual
+  partial def parseJ : List String → Option (J × List String)
+    | [] => Option.none
+    | tok :: rest =>
+      if tok = "N" then some (.null, rest)
+      else if tok = "T" then some (.bool true, rest)
+      else if tok = "F" then some (.bool false, rest)
+      else match tok.toList with
+        | 'i' :: r => (String.ofList r).toInt?.map fun i => (.num i, rest)
+        | 's' :: r => (strOfHex (String.ofList r)).map fun s => (.str s, rest)
+        | 'a' :: r => do
+          let n ← (String.ofList r).toNat?
+          let (l, rest) ← parseJArr n [] rest
+          pure (.arr l, rest)
+        | 'o' :: r => do
+          let n ← (String.ofList r).toNat?
+          let (l, rest) ← parseJObj n [] rest
+          pure (.obj l, rest)
+        | _ => Option.none
+  partial def parseJArr (k : Nat) (acc : List J) (toks : List String) : Option (List J × List String) :=
+    if k = 0 then some (acc.reverse, toks) else do
+      let (j, toks) ← parseJ toks
+      parseJArr (k - 1) (j :: acc) toks
+  partial def parseJObj (k : Nat) (acc : List (String × J)) (toks : List String) : Option (List (String × J) × List String) :=
+    if k = 0 then some (acc.reverse, toks) else
+      match toks with
+      | kt :: toks => do
+        let key ← match kt.toList with | 's' :: r => strOfHex (String.ofList r) | _ => Option.none
+        let (j, toks) ← parseJ toks
+        parseJObj (k - 1) ((key, j) :: acc) toks
+      | [] => Option.none
+end
+
+def clientOf : String → Option Client
+  | "dauth" => some .dauth | "aauth" => some .aauth | "baas" => some .baas | "dragons" => some .dragons
+  | "five" => some .five | "sun" => some .sun | "atumn" => some .atumn | _ => Option.none
+
+def showOutcome : Outcome → String
+  | .typed c m => "typed " ++ hexOfStr (c.render true) ++ " " ++ hexOfStr (m.render true)
+  | .httpError s => s!"http {s}"
+  | .ok (some j) => "ok " ++ hexOfStr (j.render true)
+  | .ok Option.none => "ok None"
+  | .raises => "raises"
+
+/-- what the public method returns from the response: the JSON, nothing, or `json["count"]` -/
+def post (ret : String) : Outcome → Outcome
+  | .ok v =>
+    if ret = "none" then .ok Option.none
+    else if ret = "count" then
+      match v with
+      | some j => (match j.get? "count" with | some c => .ok (some c) | Option.none => .raises)
+      | Option.none => .raises
+    else .ok v
+  | o => o
+
+def addTbl (T : Tables) (name : String) (k : Nat) (v : String) : Option Tables :=
+  match name with
+  | "fw" => (strOfHex v).map fun s => { T with fw := T.fw ++ [(k, s)] }
+  | "dauthUA" => (strOfHex v).map fun s => { T with dauthUA := T.dauthUA ++ [(k, s)] }
+  | "digest" => (strOfHex v).map fun s => { T with digest := T.digest ++ [(k, s)] }
+  | "aauthUA" => (strOfHex v).map fun s => { T with aauthUA := T.aauthUA ++ [(k, s)] }
+  | "baasUA" => (strOfHex v).map fun s => { T with baasUA := T.baasUA ++ [(k, s)] }
+  | "fiveUA" => (strOfHex v).map fun s => { T with fiveUA := T.fiveUA ++ [(k, s)] }
+  | "keygen" => v.toNat?.map fun n => { T with keygen := T.keygen ++ [(k, n)] }
+  | "dauthApi" => v.toNat?.map fun n => { T with dauthApi := T.dauthApi ++ [(k, n)] }
+  | "aauthApi" => v.toNat?.map fun n => { T with aauthApi := T.aauthApi ++ [(k, n)] }
+  | _ => Option.none
+
+def setLatest (T : Tables) (client : String) (n : Nat) : Option Tables :=
+  match client with
+  | "dauth" => some { T with latestDauth := n } | "aauth" => some { T with latestAauth := n }
+  | "baas" => some { T with latestBaas := n } | "dragons" => some { T with latestDragons := n }
+  | "five" => some { T with latestFive := n } | "sun" => some { T with latestSun := n }
+  | "atumn" => some { T with latestAtumn := n } | _ => Option.none
+
+def emptyTables : Tables :=
+  { fw := [], dauthUA := [], digest := [], keygen := [], dauthApi := [], aauthUA := [], aauthApi := [], baasUA := [], fiveUA := [],
+    latestDauth := 0, latestAauth := 0, latestBaas := 0, latestDragons := 0, latestFive := 0, latestSun := 0, latestAtumn := 0,
+    languages := [] }
+
+def splitAtDashes (l : List String) : List String × List String :=
+  (l.takeWhile (· ≠ "--"), (l.dropWhile (· ≠ "--")).drop 1)
+
+def step (T : Tables) (line : String) : Tables × String :=
+  match words line with
+  | ["reset"] => (emptyTables, "ok")
+  | ["tbl", name, k, v] =>
+    match k.toNat?.bind fun k => addTbl T name k v with
+    | some T' => (T', "ok")
+    | Option.none => (T, "bad-op")
+  | ["latest", c, n] =>
+    match n.toNat?.bind fun n => setLatest T c n with
+    | some T' => (T', "ok")
+    | Option.none => (T, "bad-op")
+  | ["lang", h] =>
+    match strOfHex h with
+    | some s => ({ T with languages := T.languages ++ [s] }, "ok")
+    | Option.none => (T, "bad-op")
+  | "setver" :: client :: devid :: vs =>
+    match vs.mapM String.toNat? with
+    | some vs => (T, (runSetver T client devid vs).getD "bad-op")
+    | Option.none => (T, "bad-op")
+  | kind :: client :: devid :: ver :: rest =>
+    if kind = "call" ∨ kind = "shape" then
+      let (cfgToks, callToks) := splitAtDashes rest
+      match parseCfg cfgToks, callToks with
+      | some cfg, name :: argToks =>
+        match argToks.mapM parseArg with
+        | some args =>
+          match runCall T client devid ver cfg name args with
+          | some (.ok l) => (T, if kind = "call" then showSent l else showShape l)
+          | some (.error e) => (T, "err " ++ errName e)
+          | Option.none => (T, "bad-op")
+        | Option.none => (T, "bad-op")
+      | _, _ => (T, "bad-op")
+    else if kind = "resp" then
+      -- resp <client> <ret> <status> tokens…   (here devid = ret, ver = status)
+      match clientOf client, ver.toNat? with
+      | some c, some status =>
+        if rest = ["-"] then (T, showOutcome (post devid (classify c { status, json := Option.none })))
+        else match parseJ rest with
+          | some (j, []) => (T, showOutcome (post devid (classify c { status, json := some j })))
+          | _ => (T, "bad-op")
+      | _, _ => (T, "bad-op")
+    else (T, "bad-op")
+  | _ => (T, "bad-op")
+
+def main : IO Unit := runState emptyTables step
